@@ -181,6 +181,35 @@ func genC08(g *G, n int, out io.Writer, full bool) {
 					enc.Encode(C08Case{Op: "c08", Id: id, Builtin: b.Name, Position: pos, Syntax: syn, Debug: dbg, Profile: prof, Data: "[]"})
 					id++
 				}
+				if forbidden[b.Name] && syn == "assign" && b.Name != "walk" && b.Decl != nil {
+					// the built-in is never CALLED by name: a `with` modifier binds it to another function of the same arity
+					// (a built-in or a helper of rego_extensions); the replaced function then runs it
+					ar := len(b.Decl.FuncArgs().Args)
+					victim := map[int]string{0: "time.now_ns()", 1: "count([1])", 2: "concat(\"\", [])"}[ar]
+					vname := map[int]string{0: "time.now_ns", 1: "count", 2: "concat"}[ar]
+					if victim != "" {
+						wcode := "c08_tmp := " + victim + " with " + vname + " as " + b.Name + "\n$result = true"
+						whelper := helper
+						if helper != "" {
+							whelper = "c08_helper(c08_x) = c08_out {\n  c08_tmp := " + victim + " with " + vname + " as " + b.Name + "\n  c08_out := c08_x\n}"
+							wcode = code
+						}
+						enc.Encode(C08Case{Op: "c08", Id: id, Builtin: b.Name, Position: pos, Syntax: "with-builtin", Flaw: "with-modifier", Profile: embedRego(p, wcode, whelper), Data: "[]"})
+						id++
+						if helper == "" {
+							// ... or to a user function defined in rego_extensions
+							args := []string{}
+							for k := 0; k < ar; k++ {
+								args = append(args, fmt.Sprintf("c08_a%d", k))
+							}
+							uh := "c08_user(" + strings.Join(args, ", ") + ") = 1 { true }"
+							call := "c08_user(" + strings.Join(strings.Split(strings.Repeat("1", ar), ""), ", ") + ")"
+							ucode := "c08_tmp := " + call + " with data.profile_c08.c08_user as " + b.Name + "\n$result = true"
+							enc.Encode(C08Case{Op: "c08", Id: id, Builtin: b.Name, Position: pos, Syntax: "with-user-function", Flaw: "with-modifier", Profile: embedRego(p, ucode, uh), Data: "[]"})
+							id++
+						}
+					}
+				}
 				if forbidden[b.Name] && (syn == "assign" || syn == "statement") {
 					// the same embedding in a module that is objectionable for a second reason (names that are keywords under the
 					// imported future keywords, syntax and type errors, unknown functions, unsafe variables, a clashing rule):
